@@ -216,6 +216,7 @@ type Terms struct {
 	// exactly one MakeClosure site)
 	fvBind map[*ssa.FreeVar]ssa.Value
 	inprog map[ssa.Value]bool
+	cg     *CallGraph // set after the call graph is built; used to decide whether a callee writes through a pointer argument
 }
 
 type cellInfo struct {
@@ -288,7 +289,7 @@ func (ts *Terms) cell(a *ssa.Alloc) *cellInfo {
 			case *ssa.FieldAddr, *ssa.IndexAddr:
 				// partial writes through the cell make it multi-assignment
 				var fv ssa.Value = r.(ssa.Value)
-				if hasStoreThrough(fv, 0) {
+				if ts.hasStoreThrough(fv, 0) {
 					stores += 2
 				}
 			case *ssa.MakeClosure:
@@ -301,8 +302,12 @@ func (ts *Terms) cell(a *ssa.Alloc) *cellInfo {
 				}
 			case *ssa.DebugRef:
 			case ssa.CallInstruction:
-				// address passed to a call (e.g. &m to a hook, bencode.Unmarshal(b, &d)): may be written
-				escaped = true
+				// address passed to a call: written unless every possible callee only reads through it.
+				// Opaque hooks (function values with no module target, e.g. ServerConfig.OnQuery) are
+				// assumed not to mutate what they are shown (stated assumption).
+				if !ts.callOnlyReads(r, v, 0) {
+					escaped = true
+				}
 			default:
 				// Phi, MakeInterface, etc.: treat as escape
 				escaped = true
@@ -316,7 +321,100 @@ func (ts *Terms) cell(a *ssa.Alloc) *cellInfo {
 	return ci
 }
 
-func hasStoreThrough(addr ssa.Value, depth int) bool {
+// callOnlyReads: the call instruction receives ptr as an argument; report whether no callee can
+// write through it.
+func (ts *Terms) callOnlyReads(call ssa.CallInstruction, ptr ssa.Value, depth int) bool {
+	if depth > 3 || ts.cg == nil {
+		return false
+	}
+	c := call.Common()
+	if _, isGo := call.(*ssa.Go); isGo {
+		return false
+	}
+	if b, ok := c.Value.(*ssa.Builtin); ok {
+		switch b.Name() {
+		case "len", "cap", "print", "println":
+			return true
+		}
+		return false
+	}
+	edges := ts.cg.SiteOut[call.(ssa.Instruction)]
+	if sc := c.StaticCallee(); sc != nil && !ts.p.IsMod(sc) {
+		// external static callee: a few known read-only receivers/arguments
+		if o := calleeObj(c); o != nil && pureExternal[o.Name()] {
+			return true
+		}
+		return false
+	}
+	if c.IsInvoke() && len(edges) == 0 {
+		return false
+	}
+	for _, e := range edges {
+		if e.Callback {
+			continue
+		}
+		callee := e.Callee
+		off := 0
+		if c.IsInvoke() {
+			off = 1
+		}
+		for i, a := range c.Args {
+			if a != ptr {
+				continue
+			}
+			pi := i + off
+			if pi >= len(callee.Params) || !ts.paramOnlyRead(callee.Params[pi], depth+1) {
+				return false
+			}
+		}
+	}
+	// dynamic call with no module target: opaque hook, assumed read-only
+	return true
+}
+
+func (ts *Terms) paramOnlyRead(p ssa.Value, depth int) bool {
+	if depth > 4 {
+		return false
+	}
+	refs := p.Referrers()
+	if refs == nil {
+		return true
+	}
+	for _, r := range *refs {
+		switch r := r.(type) {
+		case *ssa.UnOp, *ssa.DebugRef:
+		case *ssa.FieldAddr:
+			if !ts.paramOnlyRead(r, depth+1) {
+				return false
+			}
+		case *ssa.IndexAddr:
+			if !ts.paramOnlyRead(r, depth+1) {
+				return false
+			}
+		case *ssa.Slice:
+			if !ts.paramOnlyRead(r, depth+1) {
+				return false
+			}
+		case *ssa.Store:
+			if r.Addr == p {
+				return false
+			}
+			// pointer value stored somewhere: retained
+			return false
+		case ssa.CallInstruction:
+			if !ts.callOnlyReads(r, p, depth+1) {
+				return false
+			}
+		case *ssa.BinOp:
+			// comparison
+		default:
+			return false
+		}
+	}
+	return true
+}
+
+func (ts *Terms) hasStoreThrough(addr ssa.Value, depth int) bool {
 	if depth > 4 {
 		return true
 	}
@@ -331,15 +429,17 @@ func hasStoreThrough(addr ssa.Value, depth int) bool {
 				return true
 			}
 		case *ssa.FieldAddr:
-			if hasStoreThrough(r, depth+1) {
+			if ts.hasStoreThrough(r, depth+1) {
 				return true
 			}
 		case *ssa.IndexAddr:
-			if hasStoreThrough(r, depth+1) {
+			if ts.hasStoreThrough(r, depth+1) {
 				return true
 			}
 		case ssa.CallInstruction:
-			return true
+			if !ts.callOnlyReads(r, addr, 0) {
+				return true
+			}
 		}
 	}
 	return false
